@@ -144,6 +144,15 @@ func (c *Cluster) Reconcile(actor, ns, name string) *Record {
 		rec.Post = c.Snapshot()
 	}
 	c.tracef("reconcile %s %s/%s -> calls=%d err=%v", actor, ns, name, len(rec.Calls), rec.Err)
+	if actor == ActorEDS {
+		if e := c.EDS(ns, name); e != nil {
+			can := "-"
+			if e.Status.Canary != nil {
+				can = fmt.Sprintf("%s%v", e.Status.Canary.ReplicaSet, e.Status.Canary.Nodes)
+			}
+			c.tracef("    status: active=%s canary=%s state=%q desired=%d current=%d ready=%d upToDate=%d", e.Status.ActiveReplicaSet, can, e.Status.State, e.Status.Desired, e.Status.Current, e.Status.Ready, e.Status.UpToDate)
+		}
+	}
 	if rec.Crashed {
 		// a stopped process is replaced by a fresh one
 		c.RestartControllers()
